@@ -440,6 +440,7 @@ def rich_alphabet(n, env, subs=("bs2", "h3mid", "h3io", "h4desc", "lossy", "grp"
           ("ps", n - 1, env.PH[0], 0), ("ps", 0, env.PH[1], env.L2), ("loss", 1, env.L[1]),
           ("sw", ((0, n - 1), (n - 1, 0))), ("sw", ((0, 1), (1, 2), (2, 0))), ("sw", ((1, 2), (2, 1))),
           ("uni", 2, 1, False), ("uni", 3, 0, True), ("bar", None), ("bar", (1,)), ("bar", ()), ("bar", (n - 1,)), ("bar", (0, n)),
+          ("add", "empty2", 1, True), ("add", "empty2", 0, False),
           ("her", 1, 1, n - 1), ("her", 0, 0, 0), ("her", 2, n - 1, 1),
           ("bsP", 0, 2), ("psP", 1, True), ("psP", 0, False), ("lossP", n - 1), ("bslossP", 1, 0),
           ("addgP", 0), ("addgP", n - 2), ("lossP0", 1)]
